@@ -38,13 +38,19 @@ def read(obj, name):
 
 
 def worst(impl, spec, scale):
+    impl = numpy.asarray(impl, dtype=float)
     with numpy.errstate(all="ignore"):
-        err = numpy.abs(numpy.asarray(impl, dtype=float) - spec) / numpy.where(scale > 0, scale, 1.0)
-    if not numpy.all(numpy.isfinite(numpy.asarray(impl, dtype=float))):
-        idx = numpy.argwhere(~numpy.isfinite(numpy.asarray(impl, dtype=float)))[0]
+        err = numpy.abs(impl - spec) / numpy.where(scale > 0, scale, 1.0)
+    impl = numpy.broadcast_to(impl, err.shape)
+    if not numpy.all(numpy.isfinite(impl)):
+        idx = numpy.argwhere(~numpy.isfinite(impl))[0]
     else:
         idx = numpy.unravel_index(numpy.nanargmax(err), err.shape)
-    return tuple(int(i) for i in idx), float(numpy.asarray(impl, dtype=float)[tuple(idx)]), float(numpy.broadcast_to(spec, err.shape)[tuple(idx)])
+    idx = tuple(int(i) for i in idx)
+    if len(idx) == 1:
+        idx = (0,) + idx
+        impl, err = impl[None, :], err[None, :]
+    return idx, float(impl[idx]), float(numpy.broadcast_to(spec, err.shape)[idx])
 
 
 def compare(ctx, pid_clause, kind, case, ei, ej, exp, names, obj=None, extra=None):
